@@ -425,7 +425,6 @@ def placeholder(P, rep, key):
         pstrs = [e for e in calls if e[1] == "std::string::String::push_str"]
         if not nexts:
             continue
-        cur = "%s:Some.0" % _sym_of_call(p, nexts[0])
         is_at = None
         found = None
         for e, t in p.conds:
@@ -468,6 +467,17 @@ def placeholder(P, rep, key):
                 r0 = ch.root(t["args"][0], through_calls=False)
                 r1 = ch.root(t["args"][1], through_calls=False)
                 index_ok = r0[0] == 1 and r1[0] == 2 and not MU.proj_fields(r1[1])
+    # what is walked is the body line itself, whole: the characters come from the text parameter, not from a part of it
+    bsub = P.body[fn]
+    chs = MU.Chaser(bsub)
+    walked = [t_ for _, t_, _, _ in P.call_sites(fn) if MU.callee_names(t_)[1].endswith("str>::chars") or MU.callee_names(t_)[1].endswith("str>::char_indices")]
+    whole = len(walked) == 1
+    if whole:
+        r_ = chs.root(walked[0]["args"][0], through_calls=False)
+        whole = r_[0] is not None and 1 <= r_[0] <= bsub["arg_count"] and not [e for e in r_[1] if e["k"] not in ("deref", "addrof", "via")] and \
+            "str" in P.tys(fn, bsub["locals"][r_[0]]["ty"])
+    if not whole:
+        why.append("the characters that are walked are not those of the whole body line (a part of it was cut off or it was worked on first)")
     if not digit_ok:
         why.append("the digit behind `@` is not read as a decimal digit of the character that was looked at")
     if not index_ok:
@@ -528,36 +538,8 @@ def seed_of_expansion(P):
     return {"address": addr, "type_from_last": from_last}
 
 
-def run(tier):
-    rep = Reporter("C09", tier, "other", "lower-case typestate on macro-table keys; syntactic re-parse-safety of the operand printers (format templates read from MIR); def-use of the splice loop; path rules on macro_expand")
-    rep.explanation = ("Macro expansion re-renders each parsed argument to text and re-parses the body, so it can only be faithful if (1) definition "
-                       "and call agree on the name's case, (2) the printers of compound expressions keep their grouping, (3) every segment the "
-                       "expansion produced is spliced exactly once, (4) an unknown macro is an error. Each is a necessary structural condition, "
-                       "decided on MIR. Not decided: equality of expansion and hand-expansion in general, nested conditionals in bodies (C08), "
-                       "recursion depth (C16).")
-    rep.trusted = ["rustc nightly MIR", "E4 (analysis/norm.py)", "decoding of rustc's format_args template bytes"]
-    P = G.Program(F.load("dev"))
-    N = norm.Norm(P)
-    # ---- 1. macro-table keys
-    sites = rules_C10.map_sites(P, "parser::Macro", ("macroses",))
-    # the call-time lookup goes through the `macroses` parameter of macro_expand (a plain &HashMap): add HashMap::get sites there
-    extra = []
-    for k in ("builder::pass0::macro_expand",):
-        if k in P.body:
-            for bb, t, name, tg in P.call_sites(k):
-                if rules_C10.MAP_METHODS.match(MU.callee_names(t)[1]):
-                    extra.append((k, bb, t, "macroses", MU.callee_names(t)[1].rsplit("::", 1)[-1]))
-    allsites = sites + [e for e in extra if (e[0], e[1]) not in {(s[0], s[1]) for s in sites}]
-    rep.count("macro-table access sites", len(allsites))
-    kinds = set()
-    for k, bb, t, fname, meth in allsites:
-        ok, why = N.operand(k, t["args"][1])
-        kinds.add(meth)
-        rep.ob("C09.case|%s|%s" % (k, meth), ok,
-               "macro table %s in %s: the name is lower-cased (%s)" % (meth, k.split("::")[-1], why) if ok else
-               "macro table %s in %s: the name is not provably lower-cased — %s; a macro defined as `Foo` cannot be called (calls are lower-cased)" % (meth, k.split("::")[-1], why),
-               loc=loc_of(P.body[k]["blocks"][bb]["tspan"]), detail={"reason": why})
-    rep.ob("C09.case|sites", {"insert", "get"} <= kinds, "both the definition (insert) and the call (get) side of the macro table were found", kind="unprovable", nontrivial=False)
+def printers_rule(P, rep):
+    """the operand printers keep the grouping of what they print (the text is parsed again)"""
     # ---- 2. printers
     printers = {}
     for imp in P.lib.impls:
@@ -630,6 +612,39 @@ def run(tier):
                 got.add("".join(x[1] if x[0] == 'lit' else "{}" for x in tpl))
         rep.ob("C09.print|%s" % ty, got == shapes, "%s prints the grammar's own syntax %s" % (ty.split("::")[-1], sorted(got)) if got == shapes else
                "%s prints %s, the grammar expects %s" % (ty.split("::")[-1], sorted(got), sorted(shapes)))
+
+
+def run(tier):
+    rep = Reporter("C09", tier, "other", "lower-case typestate on macro-table keys; syntactic re-parse-safety of the operand printers (format templates read from MIR); def-use of the splice loop; path rules on macro_expand")
+    rep.explanation = ("Macro expansion re-renders each parsed argument to text and re-parses the body, so it can only be faithful if (1) definition "
+                       "and call agree on the name's case, (2) the printers of compound expressions keep their grouping, (3) every segment the "
+                       "expansion produced is spliced exactly once, (4) an unknown macro is an error. Each is a necessary structural condition, "
+                       "decided on MIR. Not decided: equality of expansion and hand-expansion in general, nested conditionals in bodies (C08), "
+                       "recursion depth (C16).")
+    rep.trusted = ["rustc nightly MIR", "E4 (analysis/norm.py)", "decoding of rustc's format_args template bytes"]
+    P = G.Program(F.load("dev"))
+    N = norm.Norm(P)
+    # ---- 1. macro-table keys
+    sites = rules_C10.map_sites(P, "parser::Macro", ("macroses",))
+    # the call-time lookup goes through the `macroses` parameter of macro_expand (a plain &HashMap): add HashMap::get sites there
+    extra = []
+    for k in ("builder::pass0::macro_expand",):
+        if k in P.body:
+            for bb, t, name, tg in P.call_sites(k):
+                if rules_C10.MAP_METHODS.match(MU.callee_names(t)[1]):
+                    extra.append((k, bb, t, "macroses", MU.callee_names(t)[1].rsplit("::", 1)[-1]))
+    allsites = sites + [e for e in extra if (e[0], e[1]) not in {(s[0], s[1]) for s in sites}]
+    rep.count("macro-table access sites", len(allsites))
+    kinds = set()
+    for k, bb, t, fname, meth in allsites:
+        ok, why = N.operand(k, t["args"][1])
+        kinds.add(meth)
+        rep.ob("C09.case|%s|%s" % (k, meth), ok,
+               "macro table %s in %s: the name is lower-cased (%s)" % (meth, k.split("::")[-1], why) if ok else
+               "macro table %s in %s: the name is not provably lower-cased — %s; a macro defined as `Foo` cannot be called (calls are lower-cased)" % (meth, k.split("::")[-1], why),
+               loc=loc_of(P.body[k]["blocks"][bb]["tspan"]), detail={"reason": why})
+    rep.ob("C09.case|sites", {"insert", "get"} <= kinds, "both the definition (insert) and the call (get) side of the macro table were found", kind="unprovable", nontrivial=False)
+    printers_rule(P, rep)
     # ---- 3a. headers of the spliced segments
     splice_headers(P, rep, "C09.splice")
     # ---- 3. splice loop
